@@ -87,7 +87,7 @@ func specA() spectypes.Spec {
 	}
 	restDbg := spectypes.CollectionData{ApiInterface: "rest", Type: "GET", AddOn: "dbg"}
 	arch := func() []*spectypes.Extension {
-		return []*spectypes.Extension{{Name: "archive", CuMultiplier: 2, Rule: &spectypes.Rule{Block: 100}}}
+		return []*spectypes.Extension{{Name: "archive", CuMultiplier: 2, Rule: &spectypes.Rule{Block: 100}}, {Name: "trace", CuMultiplier: 3}}
 	}
 	sp.ApiCollections = []*spectypes.ApiCollection{
 		{Enabled: true, CollectionData: rest, Apis: []*spectypes.Api{api("/a/get", 10)}, Extensions: arch()},
@@ -270,7 +270,19 @@ func (s *Sim) endpointsFor(chain string, geo int32, rich bool) []epochstoragetyp
 			eps = append(eps, epochstoragetypes.Endpoint{IPPORT: "1.1.1.1:1", Geolocation: int32(g), ApiInterfaces: []string{"rest", "jsonrpc"}})
 			if rich {
 				// which optional services this provider offers is part of the generated world
-				switch s.R.Intn(5) {
+				nKinds := 5
+				if s.prof.PolicyHeavy {
+					nKinds = 9 // the pairing profiles also have providers with the second extension only / both extensions
+				}
+				switch s.R.Intn(nKinds) {
+				case 5:
+					eps = append(eps, epochstoragetypes.Endpoint{IPPORT: "1.1.1.1:3", Geolocation: int32(g), ApiInterfaces: []string{"jsonrpc", "rest"}, Extensions: []string{"trace"}})
+				case 6:
+					eps = append(eps, epochstoragetypes.Endpoint{IPPORT: "1.1.1.1:3", Geolocation: int32(g), ApiInterfaces: []string{"jsonrpc", "rest"}, Extensions: []string{"archive"}})
+				case 7:
+					eps = append(eps, epochstoragetypes.Endpoint{IPPORT: "1.1.1.1:3", Geolocation: int32(g), ApiInterfaces: []string{"jsonrpc", "rest"}, Extensions: []string{"archive", "trace"}})
+				case 8:
+					eps = append(eps, epochstoragetypes.Endpoint{IPPORT: "1.1.1.1:2", Geolocation: int32(g), ApiInterfaces: []string{"jsonrpc", "rest"}, Addons: []string{"dbg"}, Extensions: []string{"trace"}})
 				case 0:
 					eps = append(eps, epochstoragetypes.Endpoint{IPPORT: "1.1.1.1:2", Geolocation: int32(g), ApiInterfaces: []string{"jsonrpc"}, Addons: []string{"dbg"}})
 				case 1:
@@ -701,7 +713,19 @@ func (s *Sim) somePolicy() *planstypes.Policy {
 			return r
 		}
 		mixed := s.R.Intn(2) == 0
-		switch s.R.Intn(7) {
+		two := func(r planstypes.ChainRequirement) planstypes.ChainRequirement {
+			r.Extensions = []string{"archive", "trace"}
+			return r
+		}
+		switch s.R.Intn(10) {
+		case 7:
+			p.ChainPolicies = []planstypes.ChainPolicy{{ChainId: "SPA", Requirements: []planstypes.ChainRequirement{two(req("jsonrpc", "POST", "", true, true))}}, {ChainId: "*"}}
+			p.MaxProvidersToPair = uint64(4 + s.R.Intn(3))
+		case 8:
+			p.ChainPolicies = []planstypes.ChainPolicy{{ChainId: "SPA", Requirements: []planstypes.ChainRequirement{two(req("rest", "GET", "dbg", true, true))}}, {ChainId: "*"}}
+			p.MaxProvidersToPair = uint64(4 + s.R.Intn(3))
+		case 9:
+			p.ChainPolicies = []planstypes.ChainPolicy{{ChainId: "SPA", Requirements: []planstypes.ChainRequirement{two(req("jsonrpc", "POST", "dbg", true, mixed))}}, {ChainId: "*"}}
 		case 0:
 			p.ChainPolicies = []planstypes.ChainPolicy{{ChainId: "SPA", Requirements: []planstypes.ChainRequirement{req("jsonrpc", "POST", "dbg", false, mixed)}}, {ChainId: "*"}}
 		case 1:
@@ -937,6 +961,10 @@ func (s *Sim) someExcellence() *pairingtypes.QualityOfServiceReport {
 	d := func() sdk.Dec {
 		switch s.R.Intn(6) {
 		case 0:
+			if s.R.Intn(4) == 0 {
+				// a consumer is free to sign any non-negative number: up to the largest values an sdk.Dec can carry
+				return sdk.NewDecFromInt(sdkmath.NewIntWithDecimal(int64(1+s.R.Intn(9)), 20+s.R.Intn(38)))
+			}
 			return sdk.NewDecWithPrec(1, 6)
 		case 1:
 			return sdk.NewDec(int64(1 + s.R.Intn(100000)))
